@@ -26,6 +26,7 @@ Describe(in) == Expected(in)
 
 \* the implementation-shaped variables of XargsExec are not used in trace validation
 TInit == outs = <<>> /\ k = 0 /\ result = "" /\ fin = 0
+Beyond(in) == FALSE
 TC == INSTANCE TraceCheck
 Spec == TInit /\ TC!Init /\ [][TC!Step /\ UNCHANGED evars]_<<l, evars>>
 Accepted == TC!Accepted
